@@ -104,6 +104,9 @@ package types
 //@   ensures #node result != nil && isfresh(result) && dynis(result, ObjTy) && result.Kind == KObj && same(result.Obj().Fields, fields)
 //@   ensures #index wfObj(result.Obj())
 
+// (a composite type is always rebuilt, never returned as is: unify's guard
+// against recursive types identifies nodes by address, so instantiation must
+// not hand it the shared parameter node of an overload twice)
 //@ func applySubst
 //@   props C17 C05
 //@   requires wfT(ty) && wfSubst(m)
@@ -114,6 +117,7 @@ package types
 //@   loop 3 invariant len(params) == len(f.Param) && isfresh(params) && forall(j, 0, rangeindex+1, wfT(params[j]) && allocated(params[j]))
 //@   unfold @return wfT(result)
 //@   ensures #wf wfT(result) && result != nil
+//@   ensures #rebuilt ty.Kind > kCompositeBegin ==> isfresh(result)
 
 // unify: local soundness of every binding it makes.  Where the substitution
 // map is written, the bound type does not contain the variable (occurs
